@@ -94,6 +94,20 @@ def structured(n, m):
     return uv, quads
 
 
+def annulus(nt, nr, r0=1.0, dr=0.6):
+    """a closed ring of nt x nr quads (periodic in the first index): two boundary loops, 4-valent interior"""
+    def nid(i, j):
+        return j * nt + (i % nt)
+
+    uv = []
+    for j in range(nr + 1):
+        for i in range(nt):
+            a = 2 * math.pi * i / nt
+            uv.append([(r0 + dr * j) * math.cos(a), (r0 + dr * j) * math.sin(a)])
+    quads = [[nid(i, j), nid(i + 1, j), nid(i + 1, j + 1), nid(i, j + 1)] for j in range(nr) for i in range(nt)]
+    return uv, quads
+
+
 def compact(uv, quads):
     used = sorted({k for q in quads for k in q})
     new = {k: i for i, k in enumerate(used)}
